@@ -6,6 +6,58 @@ from checks import common
 PID = "C03"
 
 
+def _round_steps(r, s, name, n, basis):
+    """Conformance of real runs with Dedup.tla's RoundExact (observation, not a clause of C03): the full function list is recorded at the
+    start of every round; for every function and round, string_r(x; A(theta)) must equal string_{r+1}(x; theta) with A the substitutions
+    the round file records for that function.  A step that is not exact is counted (check_results may still repair the library)."""
+    import csv, json, os
+    from harness import lib, libproj, p1
+    rec = os.path.join(s, "rounds_%s_%d.ndjson" % (name, n))
+    if os.path.exists(rec):
+        os.remove(rec)
+    res = lib.generate(s, name, n, basis=basis, env={"ESR_VERIF_ROUNDS": rec})
+    if res["status"] != "ok" or not os.path.exists(rec):
+        return
+    L = lib.Library(s, name, n)
+    lists = [json.loads(l) for l in open(rec)]
+    lists = [x for x in lists if len(x) == len(L.all_eq)]
+    gen = libproj.Strs(p1.parse_gen)
+    steps = exact = inexact = lost = undecided = 0
+    bad = []
+    for rd in range(len(lists) - 1):
+        fsub = os.path.join(L.dir, "inv_subs_%d_round_%d.txt" % (n, rd))
+        fidx = os.path.join(L.dir, "inv_idx_%d_round_%d.txt" % (n, rd))
+        if not os.path.exists(fsub):
+            break
+        rows = [[e for e in row if e.strip()] for row in csv.reader(open(fsub), delimiter=";")]
+        idx = [int(v) for v in open(fidx).read().split()]
+        per = dict(zip(idx, rows))
+        for i in range(len(L.all_eq)):
+            a, b, row = lists[rd][i], lists[rd + 1][i], per.get(i, [])
+            if a == b and not row:
+                continue
+            steps += 1
+            try:
+                chain = [libproj.parse_sub(c) for c in row]
+            except libproj.BadChain:
+                inexact += 1
+                continue
+            if any(c is None for c in chain):
+                lost += 1
+                continue
+            v, why = libproj.map_exact(gen.expr(a), gen.expr(b), chain, libproj.nparam(b))
+            if v == 1:
+                exact += 1
+            elif v == 0:
+                inexact += 1
+                if len(bad) < 3:
+                    bad.append({"round": rd, "function": i, "before": a, "after": b, "recorded": row, "why": why[:120]})
+            else:
+                undecided += 1
+    r.add("dedup_rounds", evaluations=steps, nontrivial=exact, rounds=len(lists) - 1,
+          **{"%s_n%d" % (name, n): dict(steps=steps, exact=exact, unrecoverable=lost, inexact=inexact, undecided=undecided, inexact_samples=bad)})
+
+
 def run(tier, replay=None):
     r = evidence.Run(PID, tier, "model_checking")
     s = scratch.make()
@@ -45,6 +97,13 @@ def run(tier, replay=None):
             if ex:
                 r.sample({"library": name, "n": n, "function": L.all_eq[ex[0]["i"]], "unique": L.uniq[ex[0]["match"]],
                           "map": L.inv_subs[ex[0]["i"]], "event": ex[0]})
+    for name, n, basis in ([("core_maths", 4, None), ("base_e_maths", 4, None)] if tier == "quick" else
+                           [("core_maths", 5, None), ("base_e_maths", 4, None), ("ext_maths", 4, None), ("keep_duplicates", 4, None)]):
+        _round_steps(r, scratch.make(), name, n, basis)
+    res = tlc.must(tlc.run("Dedup", "Dedup_mc.cfg", constants=dict(NF="2", NC="1", NBlocks="1", MaxRounds="2", Faults="0", Repair="FALSE"), workers=8, heap="8g"), "Dedup")
+    r.add_tlc(res, "dedup_model_fault_free")
+    for v in res["violated"]:
+        r.violation("model:" + v, "Dedup.tla invariant %s violated in the fault-free configuration (design of the round bookkeeping)" % v)
     r.cov["rule"] = ("every function line of every generated library is one event of the trace judged by Library.tla; exactness of the recorded "
                      "map is decided by P1 on function(x; p(theta)) vs unique(x; theta) with an independent composer of the file's chain; "
                      "non-trivial = lines with a non-empty map proven exact, or unrecoverable lines whose family equality was established")
